@@ -232,7 +232,7 @@ fn env_typed<F, D>(c: &EnvCase, st: &mut Stats, mk_detect: &dyn Fn() -> D, named
 where
     F: Frame + 'static,
     F::Sample: Fmt,
-    D: Detect<F> + 'static,
+    D: Detect<F> + Clone + 'static,
     D::Output: std::fmt::Debug,
     <D::Output as Frame>::Sample: Fmt,
 {
@@ -326,6 +326,37 @@ where
                 _ => break,
             }
         }
+    }
+    // a detector is a value: a clone taken mid-stream carries the envelope (and the detector stage's state) with it
+    {
+        let half = c.ops.len() / 2;
+        let mut orig = Detector::new(mk_detect(), attack0, release0);
+        let mut i = 0;
+        let apply = |d: &mut Detector<F, D>, op: &Op, i: usize| -> Option<D::Output> {
+            match op {
+                Op::SetAttack(x) => d.set_attack_frames(*x),
+                Op::SetRelease(x) => d.set_release_frames(*x),
+                Op::SetAttackInf => d.set_attack_frames(f32::INFINITY),
+                Op::SetReleaseInf => d.set_release_frames(f32::INFINITY),
+                Op::Frame(_) => return Some(d.next(frames_in[i])),
+            }
+            None
+        };
+        for op in &c.ops[..half] {
+            if apply(&mut orig, op, i).is_some() {
+                i += 1;
+            }
+        }
+        let mut cl = orig.clone();
+        let at = i;
+        for op in &c.ops[half..] {
+            let (a, b) = (apply(&mut orig, op, i), apply(&mut cl, op, i));
+            if let (Some(a), Some(b)) = (a, b) {
+                ensure!(b == outs[i] && a == outs[i], "frame {}: a clone taken after {} frames yields {:?}, the cloned detector {:?}, an uninterrupted run {:?}", i, at, b, a, outs[i]);
+                i += 1;
+            }
+        }
+        st.class_if(at > 0 && i > at, "detector cloned mid-stream");
     }
     // every other way of constructing the same detector (named constructors, peak_from_rectifier, rms) behaves identically
     for (name, mut alt) in named(attack0, release0) {
@@ -443,7 +474,7 @@ pub fn env_strategy() -> impl Strategy<Value = EnvCase> {
         1..4,
     );
     let op = prop_oneof![56 => frame.prop_map(Op::Frame), 4 => time_const().prop_map(Op::SetAttack), 4 => time_const().prop_map(Op::SetRelease), 1 => Just(Op::SetAttackInf), 1 => Just(Op::SetReleaseInf)];
-    (0usize..7, prop_oneof![1 => Just(Det::PeakFull), 1 => Just(Det::PeakPos), 1 => Just(Det::PeakNeg), 1 => (1usize..=32).prop_map(Det::Rms)], time_const(), time_const(), proptest::collection::vec(op, 1..400), 0usize..5, any::<bool>(), 0usize..64)
+    (0usize..7, prop_oneof![1 => Just(Det::PeakFull), 1 => Just(Det::PeakPos), 1 => Just(Det::PeakNeg), 1 => (1usize..=32).prop_map(Det::Rms)], time_const(), time_const(), proptest::collection::vec(op, 1..400), 0usize..6, any::<bool>(), 0usize..64)
         .prop_map(|(f, det, attack, release, mut ops, profile, adaptor, inf)| {
             // profiles: plain, burst then silence (long release), constant input (monotone approach)
             let n = ops.len();
@@ -454,6 +485,8 @@ pub fn env_strategy() -> impl Strategy<Value = EnvCase> {
                         2 => v.iter_mut().for_each(|x| *x = 0.7),
                         // float frame types only (FTS[0], FTS[1]): amplitudes up to 4 (any finite input)
                         4 if f < 2 => v.iter_mut().for_each(|x| *x *= 4.0),
+                        // f64 frames only (FTS[1]): finite amplitudes beyond the f32 range
+                        5 if f == 1 => v.iter_mut().for_each(|x| *x *= 1e39),
                         _ => {}
                     }
                 }
@@ -470,7 +503,7 @@ pub fn run(ctx: &mut Ctx) {
     );
     ctx.assume("rectifier oracle: |amplitude| in the signed companion, max(s, equilibrium), min(s, equilibrium), exact; envelope oracle per channel: out in d + [g_lo, g_hi] (l - d) with g = exp(-1/frames) in f64 widened by 1e-5 relative (f32 powf), result widened by 2 ulp of the format's Float at scale max(|l|,|d|) for float formats, and by 1 LSB + 4 ulp of |l - d| for integer formats (their l - d is an exact integer subtraction); d is observed through a second instance of the same detector stage (rectifiers are checked here, RMS in C11)");
     ctx.assume("integer inputs exclude the format minimum (the statement's premise)");
-    for c in ["falling detected value (release path)", "zero time constant", "parameter change mid-run", "unsigned format", "rms detection", "detect_envelope adaptor", "time constant > 1e7 frames (gain rounds to 1.0)", "infinite time constant (the envelope holds)", "named constructors"] {
+    for c in ["falling detected value (release path)", "zero time constant", "parameter change mid-run", "unsigned format", "rms detection", "detect_envelope adaptor", "time constant > 1e7 frames (gain rounds to 1.0)", "infinite time constant (the envelope holds)", "named constructors", "detector cloned mid-stream"] {
         ctx.require_class(c);
     }
 
